@@ -408,7 +408,7 @@ func c10Check(run *Run, c *c10Case, worker int) {
 func runC10(run *Run, replay string) Spec {
 	spec := Spec{
 		Level:       "translation_validation",
-		Rule:        "generated operations over layout L1 with @defer on inline fragments and spreads (nested, sibling, in lists, under interface and union members, at the root, labelled, if: literal/variable) × 3 completion orders of the subgraph requests (seeded delays): the recorded frames are accepted by the Lean acceptor Defer.accept, Defer.reconstruct of the frames equals the data of the same operation with every @defer removed (same engine), @defer(if:false) yields one payload with that data, writer calls never overlap, nothing after Complete, the stream ends. non-trivial = operations whose stream has ≥ 2 frames; distinct = distinct (operation, universe)",
+		Rule:        "generated operations over layout L1 with @defer on inline fragments and spreads (nested, sibling, in lists, under interface and union members, at the root, labelled, if: literal/variable) × 3 completion orders of the subgraph requests (seeded delays): the recorded frames are accepted by the Lean acceptor Defer.accept, Defer.reconstruct of the frames equals the data of the same operation with every @defer removed (same engine), @defer(if:false) yields one payload with that data, writer calls never overlap, nothing after Complete, the stream ends; in addition Resolvable.isDeferAncestor is run (build-tag hook) on generated defer trees with random valid delivery orders: it never admits a group that has not been delivered before the group being rendered, and it answers like the Lean model Proto.DeferTree.anc. non-trivial = operations whose stream has ≥ 2 frames; distinct = distinct (operation, universe)",
 		TrustedBase: []string{"the engine without @defer as the data reference (validated against the Lean reference executor by C01)", "the harness' semantic subgraphs, recording writer and operation generator", "JSON decoding of frames in the Lean driver"},
 		Assumptions: []string{"completion orders are induced by seeded per-request delays, not enumerated", "when the undeferred response or any frame carries errors only the stream discipline is checked, not data equality (non-null propagation legitimately differs per payload)"},
 	}
@@ -419,6 +419,15 @@ func runC10(run *Run, replay string) Spec {
 	}
 	if replay != "" {
 		if b, err := os.ReadFile(replay); err == nil {
+			var ft struct {
+				Violation struct {
+					Input c10TreeCase `json:"input"`
+				} `json:"violation"`
+			}
+			if json.Unmarshal(b, &ft) == nil && ft.Violation.Input.Stream == "defer_tree" {
+				c10CheckTree(run, ft.Violation.Input)
+				return spec
+			}
 			var f struct {
 				Violation struct {
 					Input struct {
@@ -437,6 +446,16 @@ func runC10(run *Run, replay string) Spec {
 		}
 		return spec
 	}
+	// the defer tree of the resolver: isDeferAncestor on generated trees and delivery orders (c10t.go)
+	nTrees := 400
+	if run.Tier == "thorough" {
+		nTrees = 20000
+	}
+	parallelFor(nTrees, 8, func(k int) {
+		if run.NViolations() < 5 {
+			c10CheckTree(run, c10GenTree(subRng(run.Seed+31, k)))
+		}
+	})
 	n := 300
 	if run.Tier == "thorough" {
 		n = 12000
